@@ -447,12 +447,18 @@ def run_instance(ctx, inst):
                 wcmd += ["--property", wid]
         except Exception:
             pass
+    # CBMC writes the CNF for the external SAT solver to $TMPDIR and leaves it behind when it is killed on
+    # timeout (2 GB each): keep those files inside the run's scratch directory, which is removed at exit
+    tdir = os.path.join(os.path.dirname(gb), "tmp")
+    os.makedirs(tdir, exist_ok=True)
+    cenv = dict(os.environ, TMPDIR=tdir, TMP=tdir, TEMP=tdir)
     with cf.ThreadPoolExecutor(2) as ex:
-        fp = ex.submit(run_cmd, cbmc_cmd(inst, gb, False), timeout, inst.mem_gb)
-        fw = ex.submit(run_cmd, wcmd, timeout, inst.mem_gb) if gbw else None
+        fp = ex.submit(run_cmd, cbmc_cmd(inst, gb, False), timeout, inst.mem_gb, None, cenv)
+        fw = ex.submit(run_cmd, wcmd, timeout, inst.mem_gb, None, cenv) if gbw else None
         rc, out, err, wall, to = fp.result()
         wres = fw.result() if fw else None
     r.wall = time.time() - t0
+    shutil.rmtree(tdir, ignore_errors=True)
     # witness
     if wres is not None:
         wrc, wout, werr, wwall, wto = wres
